@@ -986,7 +986,7 @@ conc_prop!(
     "C03",
     c03,
     nontrivial_c03,
-    "proptest-generated concurrent histories: small breaker configs (both window types, wait 20-100 ms + 0.5), with/without fallback, 2-10/20 caller groups (1-6 identical callers per instant) on 1-4 clones with scripted latency/outcome incl. panic and never, cancellations, optional force_open, poll-order choices. Oracle in log order: no inner entry while the last observed transition is ->Open; Open->HalfOpen only >= wait after opening; a caller first polled while open (before the wait) resolves in that instant with OpenCircuit / its own fallback value and never enters; admitted callers get their own inner result. Non-trivial: a caller is first polled while the breaker is open and another, earlier admitted call is still running; distinct by hash of the case"
+    "proptest-generated concurrent histories: small breaker configs (both window types, wait 20-100 ms + 0.5), with/without fallback, 2-10/20 caller groups (1-6 identical callers per instant) on 1-4 clones with scripted latency/outcome incl. panic and never, cancellations, optional force_open, poll-order choices. Oracle in log order: no inner entry while the last observed transition is ->Open; Open->HalfOpen only >= wait after opening; a caller first polled while open (before the wait) resolves in that instant with OpenCircuit / its own fallback value and never enters; admitted callers get their own inner result.Also generated: event listeners, starved first polls, and one more caller after a long quiet time (31 s / 1 h / 400 days). Non-trivial: a caller is first polled while the breaker is open and another, earlier admitted call is still running; distinct by hash of the case"
 );
 conc_prop!(
     C09,
